@@ -41,8 +41,12 @@ def run(ctx, chk):
             rets = [p for p in paths if p.end == "return"]
             pans = [p for p in paths if p.end == "panic"]
             want = cmp(L(P(2)), "Eq", c(3))
-            chk.ob("G19", "Standard::to_amino", len(rets) == 1 and gset(rets[0].guards) == {want} and
-                   any(gset(p.guards) == {(want[0], nf.NEG[want[1]])} for p in pans),
+            # the length may be asserted in bits (`codon.bs.len() == 3 * Dna::BITS`): same guard for aligned content (nf.align_cmp)
+            dna_cd = cfg.codecs.get("dna::Dna")
+            def gl(gs):
+                return an.gset_aligned(gs, dna_cd.bits) if dna_cd else gset(gs)
+            chk.ob("G19", "Standard::to_amino", len(rets) == 1 and gl(rets[0].guards) == {want} and
+                   any(gl(p.guards) == {(want[0], nf.NEG[want[1]])} for p in pans),
                    "decodes under %s, panics under %s; expected assert len == 3 dominating the decode" % (
                        [gshow(gset(p.guards)) for p in rets], [gshow(gset(p.guards)) for p in pans]), b["span"])
             for p in rets:
